@@ -27,7 +27,7 @@ ASSUMPTIONS = ['refsm decoder (written from the Source Map V3 document) and its 
                'well-formed = shape required by the docstring of write(): line and column both present or both absent; '
                'a line break inside a fragment only when the fragment is explicitly positioned or the break is its last character']
 BUDGET_S = {'quick': 60, 'thorough': 700}
-REQUIRED_HITS = ['sourcemap.write', 'encode_sourcemap', 'explicit_fragments_verified', 'wide_program']
+REQUIRED_HITS = ['sourcemap.write', 'encode_sourcemap', 'explicit_fragments_verified', 'wide_program', 'sources_resolved']
 FLOOR = {'quick': 3000, 'thorough': 40000}
 
 
@@ -211,8 +211,55 @@ def run(ctx):
             if ctx.out_of_time():
                 break
         progs.report()
+        resolved_sources(ctx)
     finally:
         mon.remove()
+
+
+class _Named(io.StringIO):
+    def __init__(self, name):
+        io.StringIO.__init__(self)
+        self.name = name
+
+
+def resolved_sources(ctx):
+    """the map as a file among files: a decoder resolves 'sources' (and 'file') against the location of the map;
+    what it arrives at has to be the file the fragments named"""
+    import json
+    import posixpath
+    import calmjs.parse.sourcemap as sm
+    from calmjs.parse.unparsers.es5 import pretty_printer, minify_printer
+    layouts = [('/srv/www/dist/bundle.js', '/srv/www/dist/bundle.js.map', ['/srv/www/lib/alpha.js', '/srv/www/lib/beta.js']),
+               ('/srv/www/dist/bundle.js', '/srv/www/dist/maps/bundle.js.map', ['/srv/www/lib/alpha.js', '/srv/www/dist/x/beta.js']),
+               ('/srv/www/dist/js/bundle.js', '/srv/www/bundle.js.map', ['/srv/www/dist/js/alpha.js', '/srv/lib/beta.js']),
+               ('/srv/out/a/b/c/bundle.js', '/srv/maps/bundle.js.map', ['/srv/maps/alpha.js', '/srv/out/a/beta.js']),
+               ('/bundle.js', '/m/bundle.js.map', ['/alpha.js', '/m/n/beta.js'])]
+    for k, (out_name, map_name, srcs) in enumerate(layouts):
+        if k % ctx.nshards != ctx.shard:
+            continue
+        for make in (lambda: pretty_printer('  '), lambda: minify_printer(obfuscate=True)):
+            for normalize in (True, False):
+                frags = []
+                pr = make()
+                for j, src in enumerate(srcs):
+                    tree, err = work.run_impl('var v%d = function (arg) { return arg + %d; };' % (j, j))
+                    tree.sourcepath = src
+                    frags.extend(tuple(f) for f in pr(tree))
+                out, mp = _Named(out_name), _Named(map_name)
+                mappings, sources, names = sm.write(iter(frags), out, normalize=normalize)
+                sm.write_sourcemap(mappings, sources, names, out, mp)
+                got = json.loads(mp.getvalue())
+                ctx.hit('sources_resolved')
+                base = posixpath.dirname(map_name)
+                arrived = [posixpath.normpath(posixpath.join(base, x)) for x in got['sources']]
+                wanted = [posixpath.normpath(x) for x in sources]
+                afile = posixpath.normpath(posixpath.join(base, got['file']))
+                ctx.case(('resolved', out_name, map_name, normalize), True)
+                if arrived != wanted or afile != out_name:
+                    ctx.violation('C09:source_resolves_to_other_file',
+                                  {'fragments': [], 'normalize': normalize, 'layout': [out_name, map_name, srcs]},
+                                  'map %s for %s: sources %r (file %r) resolve against the map to %r (%r); the fragments '
+                                  'named %r' % (map_name, out_name, got['sources'], got['file'], arrived, afile, wanted))
 
 
 def _from_json(frs):
@@ -223,6 +270,9 @@ def replay(ctx, witness):
     def on_violation(viol, frags, normalize, smap):
         for mech, detail in viol:
             ctx.violation(mech, witness, detail)
+    if witness.get('layout'):
+        resolved_sources(ctx)
+        return
     mon = smmon.SourcemapMonitor(ctx, on_violation).install()
     try:
         run_stream(ctx, mon, _from_json(witness['fragments']), witness.get('normalize', True), 'replay')
